@@ -1,0 +1,19 @@
+//go:build verif
+
+// Contracts for govc (see /verif/DESIGN.md). Comment-only file.
+
+package db19
+
+//@ property C34
+
+// Server side: Timestamp runs under tsLock, one atomic step on the package
+// variable `timestamp` (the next value to hand out). The caller gets ts and
+// the window [ts, timestamp') is reserved for it: 5 ms when ms(ts) < 500
+// (the client may add 1..4 ms), else 1 ms (the client appends extra 1..255).
+//@ func Timestamp() (ts)
+//@   requires validDate(timestamp)
+//@   modifies all
+//@   ensures! returns_cursor: ts == old(timestamp)
+//@   ensures! increasing: dateLess(old(timestamp), timestamp) && validDate(timestamp)
+//@   ensures! window5: dMs(ts) < 500 ==> timestamp.date == ts.date && timestamp.time == ts.time + 5
+//@   ensures! window1: dMs(ts) >= 500 && dMs(ts) < 999 ==> timestamp.date == ts.date && timestamp.time == ts.time + 1
